@@ -82,5 +82,5 @@ def run(ctx):
                 "encodings re-decoded, with reserved bits set, with a wrong version nibble and truncated; every v0/v1 datagram "
                 "of the message codec fed to the matching definition; distinct by class, length and leading octets")
     ctx.trusted += ["harness/py/proto_drv.py (dict <-> JSON renaming)", "harness/py/trxd_drv.py", "TLC"]
-    ctx.assumptions += ["unassigned modulation codes 7, 14, 15 are not generated",
+    ctx.assumptions += ["unassigned modulation codes 14, 15 are not generated",
                         "Tx messages are never legacy-padded (only TRX -> L1 messages are)"]
